@@ -52,7 +52,9 @@ def ws2doptvplc(y, nodata, p, lc, out, lopt):
         elif lc <= 0.5:
             llas = np.arange(0, 3.2, 0.2, dtype=float64)
         else:
-            llas = np.arange(-1, 1.2, 0.2, dtype=float64)
+            # lc is NaN (no autocorrelation available): same grid as lc <= 0.5,
+            # consistent with ws2doptvplc_tyx
+            llas = np.arange(0, 3.2, 0.2, dtype=float64)
 
         m1 = m - 1
         m2 = m - 2
